@@ -166,7 +166,7 @@ def c06_slices(tier):
         UseDefault="TRUE", KeyChoices="{3}", CoeffChoices="{2}", Probes='{"recon"}', Deltas="{1}", EMIT="TRUE")))
     # B: all keys and polynomials, every single-coordinate tampering with every wrong value
     sl.append(dict(name="B_values_tamper", module="C06", invariants=C06_INV, consts=consts(
-        7, Shapes="{<<3,2>>, <<3,3>>}" if th else "{<<3,2>>}", IdLists="{<<2,3,5>>, <<6,1,4>>}", UseDefault="FALSE",
+        7, Shapes="{<<3,2>>, <<3,3>>}", IdLists="{<<2,3,5>>, <<6,1,4>>}", UseDefault="FALSE",
         KeyChoices="1..6", CoeffChoices=ZQ(7), Probes='{"tamper","recon"}', Deltas="1..6", EMIT="TRUE")))
     # C: shape slice: degree 3 (t = 4), n in {4,5}: higher powers of the identifier
     sl.append(dict(name="C_shape_t4", module="C06", invariants=C06_INV, consts=consts(
@@ -393,7 +393,7 @@ def c15_slices(tier):
     # A: sequences of commit / preprocess calls with a constant, a repeating and a varying source
     sl.append(dict(name="A_call_sequences", module="C15", invariants=["InvDerivation", "Emit"], consts=consts(
         7, ShareChoices="{1,3,6}", RandChoices="{1,2}", Calls="{<<1>>, <<1,1>>, <<2>>, <<1,2>>, <<3>>, <<2,1,1>>}" if th
-        else "{<<1>>, <<1,1>>, <<2>>, <<1,2>>}", DomH3="{0,2,5}", EMIT="TRUE")))
+        else "{<<1>>, <<1,1>>, <<2>>, <<1,2>>, <<3>>}", DomH3="{0,2,5}" if th else "{2,5}", EMIT="TRUE")))
     # B: every share and every nonce value
     sl.append(dict(name="B_values", module="C15", invariants=["InvDerivation", "Emit"], consts=consts(
         7, ShareChoices="1..6", RandChoices="{7}", Calls="{<<1>>, <<2>>}" if th else "{<<1>>}", DomH3=ZQ(7), EMIT="TRUE")))
@@ -413,7 +413,7 @@ def c16_slices(tier):
     th = tier == "thorough"
     sl = []
     sl.append(dict(name="A_all_entry_points", module="C16", invariants=["InvBatchOk", "Emit"], consts=consts(
-        7, Probes='{"dealer","dkg1","single","repair","refresh","rr","batch"}', Vals=ZQ(7) if th else "{0,1,3,6}",
+        7, Probes='{"dealer","dkg1","single","repair","refresh","rr","batch"}', Vals=ZQ(7),
         NZVals="{2,5}", MaxZeros="2", Shapes="{<<2,2>>, <<3,2>>, <<3,3>>, <<4,4>>, <<1,1>>, <<2,3>>}",
         DomHDKG="{4}", DomHR="{3}", DomH2="{2}", DomH3="{3}", EMIT="TRUE")))
     sl.append(dict(name="B_t5", module="C16", invariants=["InvBatchOk", "Emit"], consts=consts(
